@@ -18,13 +18,13 @@ HARNESSES = [
     H("c17_mem_reader::c17_ptrace_len12", desc="ptrace strategy, 12 bytes"),
     H("c17_mem_reader::c17_ptrace_len16", desc="ptrace strategy, 16 bytes", tier="thorough"),
     H("c17_mem_reader::c17_ptrace_len23", desc="ptrace strategy, 23 bytes", tier="thorough"),
-    H("c17_mem_reader::c17_vmem_len1", desc="vectored read, 1 byte", loops={"stub_process_vm_readv": 42}, expect_unsat_covers=("range runs out of readable memory",)),
-    H("c17_mem_reader::c17_vmem_len9", desc="vectored read, 9 bytes", loops={"stub_process_vm_readv": 42}),
-    H("c17_mem_reader::c17_vmem_len24", desc="vectored read, 24 bytes", loops={"stub_process_vm_readv": 42}, tier="thorough"),
-    H("c17_mem_reader::c17_vec_vmem_len12", desc="read_to_vec over the vectored read (short reads give short vectors)", loops={"stub_process_vm_readv": 42}),
+    H("c17_mem_reader::c17_vmem_len1", desc="vectored read, 1 byte", loops={"stub_process_vm_readv": 42, "process_vm_readv": 42}, expect_unsat_covers=("range runs out of readable memory",)),
+    H("c17_mem_reader::c17_vmem_len9", desc="vectored read, 9 bytes", loops={"stub_process_vm_readv": 42, "process_vm_readv": 42}),
+    H("c17_mem_reader::c17_vmem_len24", desc="vectored read, 24 bytes", loops={"stub_process_vm_readv": 42, "process_vm_readv": 42}, tier="thorough"),
+    H("c17_mem_reader::c17_vec_vmem_len12", desc="read_to_vec over the vectored read (short reads give short vectors)", loops={"stub_process_vm_readv": 42, "process_vm_readv": 42}),
     H("c17_mem_reader::c17_vec_ptrace_len12", desc="read_to_vec over ptrace"),
     H("c17_mem_reader::c17_vec_ptrace_len5", desc="read_to_vec over ptrace, request shorter than a word"),
-    H("c17_mem_reader::c17_probe_vmem_len12", desc="copy_from_process: vectored read probed first and kept", loops={"stub_process_vm_readv": 42},
+    H("c17_mem_reader::c17_probe_vmem_len12", desc="copy_from_process: vectored read probed first and kept", loops={"stub_process_vm_readv": 42, "process_vm_readv": 42},
       expect_unsat_covers=("a failing read exists",)),
     H("c17_mem_reader::c17_copy_len0", desc="zero-length request is an error"),
     H("c17_mem_reader::c17_selftest_try_reserve", desc="tool self-test: try_reserve_exact + resize model", tier="thorough"),
